@@ -204,11 +204,48 @@ pub fn pattern(n: usize, trailing_newlines: usize) -> Vec<u8> {
     v
 }
 
-/// `gen N [TRAILING_NEWLINES]`
+/// Like `pattern`, but mostly multi-byte characters (2, 3 and 4 bytes long, in an order that puts
+/// character boundaries at every residue of any buffer size); exactly `n` bytes of valid UTF-8.
+pub fn pattern_utf8(n: usize, trailing_newlines: usize) -> Vec<u8> {
+    const CHARS: [char; 7] = ['\u{e9}', 'a', '\u{20ac}', '\u{1f600}', '\u{3053}', 'z', '\u{df}'];
+    let tn = trailing_newlines.min(n);
+    let body = n - tn;
+    let mut v: Vec<u8> = Vec::with_capacity(n);
+    let mut i = 0usize;
+    let mut since_nl = 0usize;
+    while v.len() < body {
+        let left = body - v.len();
+        if since_nl >= 53 && left >= 2 {
+            v.push(b'\n');
+            since_nl = 0;
+            continue;
+        }
+        let c = CHARS[(i * 5 + i / 7) % CHARS.len()];
+        i += 1;
+        if c.len_utf8() <= left && !(left - c.len_utf8() == 0 && false) {
+            let mut buf = [0u8; 4];
+            v.extend_from_slice(c.encode_utf8(&mut buf).as_bytes());
+            since_nl += 1;
+        } else {
+            v.push(b'#');
+            since_nl += 1;
+        }
+    }
+    if tn > 0 && v.last() == Some(&b'\n') {
+        *v.last_mut().unwrap() = b'#';
+    }
+    v.extend(std::iter::repeat_n(b'\n', tn));
+    if tn == 0 && v.last() == Some(&b'\n') {
+        *v.last_mut().unwrap() = b'#';
+    }
+    v
+}
+
+/// `gen N [TRAILING_NEWLINES [u]]`
 async fn gen_main<S: Sys>(env: &mut Env<S>, args: Vec<Field>) -> BResult {
     let n = args.first().and_then(|f| f.value.parse::<usize>().ok()).unwrap_or(0);
     let tn = args.get(1).and_then(|f| f.value.parse::<usize>().ok()).unwrap_or(0);
-    let data = pattern(n, tn);
+    let data = if args.get(2).is_some_and(|f| f.value == "u") { pattern_utf8(n, tn) } else { pattern(n, tn) };
     match env.system.write_all(Fd::STDOUT, &data).await {
         Ok(()) => BResult::new(ExitStatus(0)),
         Err(_) => BResult::new(ExitStatus(1)),
